@@ -276,10 +276,10 @@ def cases(rng, tier):
             for lo in range(0, 1 << n, step):
                 out.append(dict(block='exh', shape=[r, c], lo=lo, hi=min(1 << n, lo + step)))
     else:
-        per = 18 if tier == 'quick' else 60
+        per = 200 if tier == 'quick' else 600
         for (r, c) in SCOPE_SHAPES:
             n = r * c
-            if (1 << n) <= 256:
+            if (1 << n) <= 1024:
                 out.append(dict(block='exh', shape=[r, c], lo=0, hi=1 << n))
             else:
                 k = per * (8 if n >= 15 else 3)
@@ -288,7 +288,7 @@ def cases(rng, tier):
                 imgs = sorted(set(imgs) | {0, (1 << n) - 1})
                 for j in range(0, len(imgs), 64):
                     out.append(dict(block='exh', shape=[r, c], imgs=imgs[j:j + 64]))
-    nrand = dict(quick=700, thorough=30000, search=6000)[tier]
+    nrand = dict(quick=1500, thorough=30000, search=6000)[tier]
     for _ in range(nrand):
         A, g = _rand_image(rng)
         dtype = rng.choice(['bool', 'bool', 'bool', 'uint8', 'int32', 'uint16'])
